@@ -115,6 +115,10 @@ impl Prop for C19 {
             text = format!("{}\n(identifier) @unused_capture {{ node n }}\n", text);
         } else if which == 1 {
             text.push_str("\n(module) { let = }\n");
+        } else if which == 2 && rng.chance(1, 2) {
+            // a file without any stanza: still subject to every gate
+            text = (*rng.pick(&["", "; only a comment\n", "global zq_unused_global = \"d\"\n", "attribute zq_sh = v => a = v\n", "inherit .scope\n"])).to_string();
+            out.feat("dsl_without_stanzas");
         }
         let source = py::gen_any_source(rng, 8, 30);
         let lazy = rng.chance(1, 2);
@@ -126,7 +130,7 @@ impl Prop for C19 {
         let mut globals: Vec<(String, String)> = Vec::new();
         for g in case.prog.file.globals() {
             if rng.chance(4, 5) {
-                let v = (*rng.pick(&["value", "a=b", "src/pkg/mod.py", "", "é x", "=", "k=v=w"])).to_string();
+                let v = (*rng.pick(&["value", "a=b", "src/pkg/mod.py", "", "é x", "=", "k=v=w", "a,b", "1,g0=2", "(x, y)", "trailing,"])).to_string();
                 globals.push((g.name.clone(), v));
             }
         }
@@ -335,6 +339,9 @@ impl Prop for C19 {
                 }
                 if globals.iter().any(|(_, v)| v.contains('=')) {
                     out.feat("ok:global_value_with_equals_sign");
+                }
+                if globals.iter().any(|(_, v)| v.contains(',')) {
+                    out.feat("ok:global_value_with_comma");
                 }
             }
         }
